@@ -149,6 +149,10 @@ def check_session(ctx, case):
                      {'outcome': res['outcome'], 'last': res['last'], 'requests': nreq})
     elif m_hops != [h[2] for h in res['hops']]:
         ctx.disagree('session', case, {'hops': m_hops}, {'hops': [h[2] for h in res['hops']]})
+    if res['outcome'] == 'spinning':
+        ctx.fail('visit-never-ends', 'Stream.read_body', case, 'the visit spun inside one event-loop step after %d requests: no timeout or '
+                 'step bound can end it (cut by the SIGALRM watchdog); last reply %r' % (nreq, (replies[nreq - 1] if 0 < nreq <= len(replies) else None)))
+        return res
     if res['outcome'] in ('stalled', 'runaway'):
         ctx.fail('no-termination', 'WebSession', case, 'session %s after %d requests' % (res['outcome'], nreq))
     oracle_head_bytes(ctx, case, res, 'Stream.read_response')
@@ -204,6 +208,10 @@ def check_crawl(ctx, case):
     ctx.case(('crawl', repr(case)), nontrivial=len(res['hops']) + len(res['rhops']) + res.get('attempts', 0) > 0, tags=tags)
     if res['hung'] or res['capped']:
         reqlog = ' '.join([h[2].split(b'\r\n')[0].decode('latin-1') for h in res['rhops'][-4:] + res['hops'][-6:]])
+        if res.get('spinning'):
+            ctx.fail('visit-never-ends', 'Stream.read_body', case, 'the crawl spun inside one event-loop step (cut by the SIGALRM watchdog) after '
+                     '%d page requests; last requests: %s' % (len(res['hops']), reqlog[:200]))
+            return res
         ctx.fail('crawl-never-ends', 'Application.run', case,
                  'the crawl did not end (%s): %d check-outs of the URL with tries=%d, %d page requests, %d robots.txt requests so far; '
                  'visits %s; last requests: %s' % ('check-out cap' if res['capped'] else 'blocked', res['checkouts'], tries,
@@ -302,8 +310,31 @@ def check_site(ctx, case):
     """Oracle only: a small site (answers by path), recursive crawl with page requisites and/or scripting hooks: per URL
     the visits at the URL table and the requests per path."""
     tries = case['tries']
-    res = rc.run_crawl(case['url'], [], tries, 2, by_path=case['site'], recursive=True, extra_argv=case.get('options') or (),
-                       hooks=case.get('hooks'), cap=case.get('cap', 40), req_cap=case.get('req_cap', 120), timeout=10)
+    options = list(case.get('options') or ())
+    tmpdb = None
+    if case.get('crippled_db'):
+        # a --database file whose creating run died between CREATE TABLE and CREATE UNIQUE INDEX: the tables are there, the
+        # unique indexes (one row per URL) are not; the start-up of the next run has to put them back
+        import os
+        import sqlite3
+        import tempfile
+        from wpull.database.sqltable import URLTable
+        tmpdb = tempfile.mkdtemp(prefix='c18db-')
+        path = os.path.join(tmpdb, 'crawl.db')
+        URLTable(path).close()
+        con = sqlite3.connect(path)
+        for name in case['crippled_db']:
+            con.execute('DROP INDEX IF EXISTS %s' % name)
+        con.commit()
+        con.close()
+        options += ['--database', path]
+    try:
+        res = rc.run_crawl(case['url'], [], tries, 2, by_path=case['site'], recursive=True, extra_argv=options,
+                           hooks=case.get('hooks'), cap=case.get('cap', 40), req_cap=case.get('req_cap', 120), timeout=10)
+    finally:
+        if tmpdb:
+            import shutil
+            shutil.rmtree(tmpdb, ignore_errors=True)
     per, start = per_url_visits(res)
     paths = {}
     for h in res['hops']:
@@ -515,6 +546,13 @@ def run(ctx):
                 ('link-twice', {'/': html(a('/bad'), a('/page2')), '/page2': html(a('/bad'), a('/page3')), '/page3': html(img('/bad')), '/bad': rep(500)})):
             check_site(ctx, {'stream': 'site', 'name': name, 'url': 'http://a.example/', 'site': site, 'tries': tries,
                              'options': ['--page-requisites'], 'failing': ['/bad']})
+        for name, idx in (('db-without-unique-indexes', ['ix_url_strings_url', 'ix_queued_urls_url_string_id']),
+                          ('db-without-queued-unique-index', ['ix_queued_urls_url_string_id']), ('db-without-any-index',
+                           ['ix_url_strings_url', 'ix_queued_urls_url_string_id', 'ix_queued_urls_status'])):
+            site = {'/': html(a('/bad'), a('/page2'), a('/')), '/page2': html(a('/bad'), a('/'), a('/page3')),
+                    '/page3': html(a('/bad'), a('/page2')), '/bad': rep(500)}
+            check_site(ctx, {'stream': 'site', 'name': name, 'url': 'http://a.example/', 'site': site, 'tries': tries,
+                             'failing': ['/bad'], 'crippled_db': idx, 'cap': 60, 'req_cap': 200})
         for hname, action, st in (('handle_pre_response', 'RETRY', 200), ('handle_pre_response', 'RETRY', 500), ('handle_response', 'RETRY', 200),
                                   ('handle_error', 'RETRY', None), ('handle_pre_response', 'FINISH', 500), ('handle_response', 'FINISH', 500)):
             site = {'/': rep(st) if st else {'status': 0, 'mode': 'close'}}
